@@ -337,7 +337,7 @@ SPEC = r"""
         (expr.0 is Range) ==> ev(context.builtins.type_functions, old(scopes).world(), *expr, r, final(scopes).world()), // [C06:range_is_exactly_the_ascending_integers_from_start_up_to_but_excluding_end]
         (expr.0 is RangeIndex) ==> ev(context.builtins.type_functions, old(scopes).world(), *expr, r, final(scopes).world()), // [C11:range_read_evaluates_bounds_then_the_sequence_and_delegates_to_the_range_read_contract]
         (expr.0 is List || expr.0 is Call || expr.0 is Func) ==> ev(context.builtins.type_functions, old(scopes).world(), *expr, r, final(scopes).world()), // [C14:list_literals_calls_and_function_values_delegate_to_their_contracts_and_closures_capture_the_current_chain]
-        (expr.0 is Null || expr.0 is Bool || expr.0 is Int || expr.0 is Str) ==> ev(context.builtins.type_functions, old(scopes).world(), *expr, r, final(scopes).world()), // [C01:literals_denote_their_values]
+        (expr.0 is Null || expr.0 is Bool || expr.0 is Int || expr.0 is Str) ==> ev(context.builtins.type_functions, old(scopes).world(), *expr, r, final(scopes).world()), // [C15_C18:literals_denote_their_values_and_an_interpolated_literal_is_evaluated_with_its_own_line_and_column_values]
         ev(context.builtins.type_functions, old(scopes).world(), *expr, r, final(scopes).world()), // [ANY:expression_value_is_the_documented_one]
         wit(*expr, r, final(scopes).world()),
         r matches Err(e) ==> located(e), // [C17:expression_errors_are_located]
